@@ -21,3 +21,8 @@ gcc -O1 -g $SAN -I"$OUT" -I"$HERE/spec" -I"$HERE/replay" -I"$REPO/include" -I"$O
 for t in skinny-ctr skinny-ecb skinny-tweak; do
   gcc -O1 -g $SAN -I"$REPO/include" -I"$REPO/examples" "$REPO/examples/$t.c" "$REPO/examples/options.c" $objs -o "$OUT/$t"
 done
+# C19: the Arduino classes compiled for the host (portable branch) against the same library objects.
+# A failure to build (e.g. a change that is not valid C++) only disables this replayer.
+AR="$REPO/arduino/libraries/Skinny"
+( g++ -O1 -g $SAN -I"$AR" -I"$REPO/include" "$HERE/replay/replay_arduino.cpp" "$AR"/Skinny128.cpp "$AR"/Skinny64.cpp "$AR"/Mantis8.cpp \
+      "$AR"/CTR.cpp "$AR"/BlockCipher.cpp "$AR"/Cipher.cpp "$AR"/Crypto.cpp $objs -o "$OUT/replay_arduino" ) 2>"$OUT/replay_arduino.log" || true
